@@ -23,7 +23,7 @@ MALFORMED = [
 
 def plan(tier: str) -> dict:
     return {
-        "runs": 20000 if tier == "quick" else 400000,
+        "runs": 20000 if tier == "quick" else 900000,
         "budget": 150 if tier == "quick" else 900,
         "cases": [],
         "chunk": 40,
